@@ -270,6 +270,24 @@ fn uint_checked_mul<const N: usize>() {
     ow(1, r.is_some().unwrap_u8() as u64);
     st(0, &r.unwrap_or(Uint::ZERO))
 }
+/// a SEQUENCE on the `Checked` wrapper (sticky none): an addition that may overflow, then every by-value / by-reference
+/// operator form on the (possibly `None`) sum — the trace must not depend on whether the earlier step overflowed
+#[inline(never)]
+fn uint_checked_chain<const N: usize>() {
+    use crypto_bigint::Checked;
+    let (a, b, m) = (Checked::new(ld::<N>(0)), Checked::new(ld::<N>(1)), Checked::new(ld::<N>(2)));
+    let sum = a + b;
+    let p1 = &sum * &m;
+    let p2 = sum * m;
+    let p3 = &sum + &m;
+    let p4 = &sum - &m;
+    let p5 = sum * &m;
+    ow(4, p1.0.is_some().unwrap_u8() as u64 + 2 * p3.0.is_some().unwrap_u8() as u64 + 4 * p4.0.is_some().unwrap_u8() as u64);
+    st(0, &p1.0.unwrap_or(Uint::ZERO));
+    st(1, &p2.0.unwrap_or(Uint::ZERO));
+    st(2, &p3.0.unwrap_or(Uint::ZERO));
+    st(3, &p5.0.unwrap_or(Uint::ZERO));
+}
 #[inline(never)]
 fn uint_square_wide<const N: usize>() {
     let (lo, hi) = ld::<N>(0).square_wide();
@@ -888,6 +906,7 @@ pub fn registry() -> Vec<Entry> {
     reg!(v, "uint.shr_vartime", uint_shr_vartime, [1, 2, 4, 8]);
     reg!(v, "uint.bits", uint_bits, [1, 2, 3, 4, 6, 8, 16]);
     reg!(v, "uint.bits_vartime", uint_bits_vartime, [1, 2, 4, 8]);
+    reg!(v, "uint.checked_chain", uint_checked_chain, [1, 2, 4, 8]);
     reg!(v, "uint.bits_trait", uint_bits_trait, [1, 2, 4, 8, 16]);
     reg!(v, "uint.cmp_odd", uint_cmp_odd, [1, 2, 4, 8, 16]);
     reg!(v, "uint.leading_zeros", uint_leading_zeros, [1, 2, 4, 8]);
